@@ -88,6 +88,16 @@ pub fn child(args: &Args) {
     let db = args.param("db").unwrap().to_string();
     let journal_path = args.param("journal").unwrap().to_string();
     let crash_after: Option<usize> = args.param("crash_after").and_then(|s| s.parse().ok());
+    // Finer crash points: abort at the n-th time a submitter sits between "operation handed to the
+    // pipeline" and "result observed" (hook H2 schedule point inside Task::ready).
+    if let Some(n) = args.param("crash_hook").and_then(|s| s.parse::<usize>().ok()) {
+        static HITS: AtomicUsize = AtomicUsize::new(0);
+        p2panda_core::verif::install(move |name| {
+            if name == "task_ready:after_check" && HITS.fetch_add(1, Ordering::SeqCst) + 1 == n {
+                std::process::abort();
+            }
+        });
+    }
     let rt = tokio::runtime::Builder::new_multi_thread().worker_threads(2).enable_all().build().unwrap();
     rt.block_on(async move {
         let mut journal = std::fs::OpenOptions::new().create(true).append(true).open(&journal_path).unwrap();
@@ -306,7 +316,7 @@ fn me() -> std::path::PathBuf {
     std::env::current_exe().expect("current exe")
 }
 
-fn run_case(seed: u64, case: u64, crash: Option<usize>, sigkill: bool) -> CaseResult {
+fn run_case(seed: u64, case: u64, crash: Option<usize>, sigkill: bool, hook: Option<usize>) -> CaseResult {
     let mut rng = Rng::fork(seed, case);
     let plan = gen_plan(&mut rng);
     let dir = tempfile::tempdir().expect("tempdir");
@@ -316,7 +326,7 @@ fn run_case(seed: u64, case: u64, crash: Option<usize>, sigkill: bool) -> CaseRe
     let resultp = dir.path().join("replay.json");
     std::fs::write(&planp, serde_json::to_string(&plan).unwrap()).unwrap();
     let mut res = CaseResult { key: None, violations: vec![], inconclusive: None, sample: json!(null), stored_unacked: 0 };
-    let witness = |extra: serde_json::Value| json!({"seed": seed, "case": case, "crash_after_step": crash, "sigkill": sigkill, "explicit_ack": plan.explicit, "steps": plan.steps.iter().map(|s| match s { Step::Import{ops} => format!("Import({})", ops.len()), other => format!("{other:?}") }).collect::<Vec<_>>(), "detail": extra});
+    let witness = |extra: serde_json::Value| json!({"seed": seed, "case": case, "crash_after_step": crash, "crash_at_hook_hit": hook, "sigkill": sigkill, "explicit_ack": plan.explicit, "steps": plan.steps.iter().map(|s| match s { Step::Import{ops} => format!("Import({})", ops.len()), other => format!("{other:?}") }).collect::<Vec<_>>(), "detail": extra});
 
     // ---- first child: run and crash ----------------------------------------------------------
     let mut cmd = Command::new(me());
@@ -328,6 +338,9 @@ fn run_case(seed: u64, case: u64, crash: Option<usize>, sigkill: bool) -> CaseRe
         .stderr(Stdio::null());
     if let Some(k) = crash {
         cmd.arg(format!("crash_after={k}"));
+    }
+    if let Some(n) = hook {
+        cmd.arg(format!("crash_hook={n}"));
     }
     if sigkill {
         cmd.arg("linger=1");
@@ -477,8 +490,8 @@ fn run_case(seed: u64, case: u64, crash: Option<usize>, sigkill: bool) -> CaseRe
         }
         last.insert(&d.1, d.2);
     }
-    res.key = Some((plan.steps.len(), crash.unwrap_or(usize::MAX), plan.explicit));
-    res.sample = json!({"case": case, "crash_after_step": crash, "sigkill": sigkill, "explicit_ack": plan.explicit, "stored_in_topic": rows.iter().filter(|r| r.log == lid).count(), "expected_replay": expected_hashes.len(), "delivered": out.delivered.len(), "replay_started_total": out.replay_started_total});
+    res.key = Some((plan.steps.len(), crash.unwrap_or(usize::MAX - hook.unwrap_or(0)), plan.explicit));
+    res.sample = json!({"case": case, "crash_after_step": crash, "crash_at_hook_hit": hook, "sigkill": sigkill, "explicit_ack": plan.explicit, "stored_in_topic": rows.iter().filter(|r| r.log == lid).count(), "expected_replay": expected_hashes.len(), "delivered": out.delivered.len(), "replay_started_total": out.replay_started_total});
     res
 }
 
@@ -488,7 +501,7 @@ pub fn run(args: &Args) {
         "histories of 6..14 steps (publish / prune with and without body / import of 1..3 foreign \
          operations, some prune-flagged or body-less / receive / ack of a received operation), explicit \
          (70%) or automatic ack policy, file database; crash = abort() after step k for every k of each \
-         history (fault enumeration) plus SIGKILL at a random offset; then restart + stream_from(Frontier). \
+         history (fault enumeration), abort() inside a step at the n-th pipeline wait (hook), plus SIGKILL at a random offset; then restart + stream_from(Frontier). \
          Non-trivial = the database found after the crash holds >= 1 stored, unacknowledged operation with \
          a body; distinct by (history, crash point).",
         5,
@@ -496,19 +509,23 @@ pub fn run(args: &Args) {
     let histories = args.n(3, 120);
     let sigkills = args.n(8, 600);
     // Work list: (case id, crash point, sigkill)
-    let mut work: Vec<(u64, Option<usize>, bool)> = Vec::new();
+    let mut work: Vec<(u64, Option<usize>, bool, Option<usize>)> = Vec::new();
+    let hook_points = args.n(4, 12) as usize;
     for h in 0..histories {
         let plan = gen_plan(&mut Rng::fork(args.seed, h));
         for k in 0..plan.steps.len() {
-            work.push((h, Some(k), false));
+            work.push((h, Some(k), false, None));
         }
-        work.push((h, None, false)); // ran to completion, then clean exit (still a restart)
+        work.push((h, None, false, None)); // ran to completion, then clean exit (still a restart)
+        for n in 1..=hook_points.min(2 * plan.steps.len()) {
+            work.push((h, None, false, Some(n))); // abort inside a step, at the n-th pipeline wait
+        }
     }
     for s in 0..sigkills {
-        work.push((1_000_000 + s, None, true));
+        work.push((1_000_000 + s, None, true, None));
     }
     let work = Arc::new(Mutex::new(work.into_iter().rev().collect::<Vec<_>>()));
-    let results: Arc<Mutex<Vec<(u64, Option<usize>, bool, CaseResult)>>> = Arc::new(Mutex::new(Vec::new()));
+    let results: Arc<Mutex<Vec<(u64, Option<usize>, bool, Option<usize>, CaseResult)>>> = Arc::new(Mutex::new(Vec::new()));
     let threads = args.param_u64("threads", 8) as usize;
     let seed = args.seed;
     let mut hs = Vec::new();
@@ -517,22 +534,23 @@ pub fn run(args: &Args) {
         let results = results.clone();
         hs.push(std::thread::spawn(move || loop {
             let item = work.lock().unwrap().pop();
-            let Some((c, k, sk)) = item else { break };
-            let r = run_case(seed, c, k, sk);
-            results.lock().unwrap().push((c, k, sk, r));
+            let Some((c, k, sk, hk)) = item else { break };
+            let r = run_case(seed, c, k, sk, hk);
+            results.lock().unwrap().push((c, k, sk, hk, r));
         }));
     }
     for h in hs {
         let _ = h.join();
     }
     let mut results = std::mem::take(&mut *results.lock().unwrap());
-    results.sort_by_key(|r| (r.0, r.1, r.2));
+    results.sort_by_key(|r| (r.0, r.1, r.2, r.3));
     let mut crash_points = 0u64;
     let mut kills = 0u64;
-    for (c, k, sk, r) in results {
-        if sk { kills += 1 } else { crash_points += 1 }
+    let mut hook_crashes = 0u64;
+    for (c, k, sk, hk, r) in results {
+        if sk { kills += 1 } else if hk.is_some() { hook_crashes += 1 } else { crash_points += 1 }
         let nontrivial = r.key.is_some() && r.stored_unacked >= 1;
-        rep.case(if nontrivial { Some((c, k, sk)) } else { None });
+        rep.case(if nontrivial { Some((c, k, sk, hk)) } else { None });
         if let Some(w) = r.inconclusive {
             rep.bump("inconclusive_cases", 1);
             if w.contains("before the database was created") {
@@ -551,5 +569,6 @@ pub fn run(args: &Args) {
     }
     rep.extra("abort_crash_points", json!(crash_points));
     rep.extra("sigkill_crashes", json!(kills));
+    rep.extra("in_step_hook_crash_points", json!(hook_crashes));
     rep.finish(args);
 }
